@@ -200,13 +200,20 @@ def build_plan(plan):
     return ch
 
 
-def run_real(path, root_hex):
-    """The code under test.  Returns the projected observation."""
+def run_real(path, root_hex, pre_root_hex=None):
+    """The code under test.  Returns the projected observation.  With `pre_root_hex` the certificate
+    object is first asked about that other root and only then about `root_hex`: the verdict is a function
+    of (certificate, root of trust), so an answer remembered from an earlier query shows as a difference."""
     from admin.certificate import HSMCertificate, HSMCertificateRoot
     try:
         cert = HSMCertificate.from_jsonfile(path)
     except Exception as e:          # any exception is "reports an error"
         return {"outcome": "error", "err": "%s: %s" % (type(e).__name__, str(e)[:120]), "res": []}
+    if pre_root_hex is not None:
+        try:
+            cert.validate_and_get_values(HSMCertificateRoot(pre_root_hex))
+        except Exception:
+            pass
     try:
         res = cert.validate_and_get_values(HSMCertificateRoot(root_hex))
     except Exception as e:
@@ -229,7 +236,14 @@ def execute(job):
     path = os.path.join(scratch, "c06_%d.json" % os.getpid())
     ch.dump(path)
     obs = run_real(path, ch.root_hex)
-    return trace_of(ch, obs)
+    t = trace_of(ch, obs)
+    # same question put to an object that was first asked about the other root (the stranger's key when
+    # the chain is asked about its own root, and vice versa): a different answer is judged as well
+    alt = ch.keys["x"].hex if ch.root_hex == ch.keys["root"].hex else ch.keys["root"].hex
+    obs2 = run_real(path, ch.root_hex, pre_root_hex=alt)
+    if obs2 != obs:
+        t["also"] = trace_of(ch, obs2)
+    return t
 
 
 def trace_of(ch, obs):
